@@ -162,6 +162,24 @@ def part_mutants(ctx, n):
 
 
 FIXED = [
+    # f-strings: conversion and (nested) format spec together, in and out of
+    # loops
+    "w = 3\nout = ''\nfor r in [1, 's']:\n  out = f'{r!r:>{w}}'\n  if r:\n"
+    "    out += f'{r!s:^{w}.{w}} {r=} {r=!r:<{w}}'\n",
+    "def f(xs, w):\n  for r in xs:\n    yield f'{r!a:{w}}{r:>{w}}'\n"
+    "  return f'{xs!r:{w}}'\n",
+    # methods whose first parameter is not a plain name
+    "class O:\n  @classmethod\n  def build(*args, **kwargs):\n    return args\n"
+    "  @classmethod\n  def none():\n    return 0\n  @staticmethod\n"
+    "  def st(*a):\n    return a\n  def meth(*args):\n    return args\n"
+    "  @property\n  def prop(*a):\n    return a\n"
+    "x = (O.build(), O().meth(), O.st(1), O().prop)\n",
+    "class P:\n  @classmethod\n  def mk(*args):\n    return args[0]()\n"
+    "  def __init__(*args, **kw):\n    pass\np = P.mk()\n",
+    # mapping patterns whose keys are value patterns (fix fab57ea)
+    "class K:\n  A = str(3)\n  B = 'b'\ndef f(x):\n  match x:\n"
+    "    case {K.A: v}:\n      return v\n    case {K.B: b, **rest}:\n"
+    "      return (b, rest)\n  return None\ny = f({'3': 1})\n",
     "x = (1,\n", "def f(:\n  pass\n", "  x = 1\n", "if True:\nx = 1\n",
     "x = 1\n\ty = 2\n", "class A:\n  def f(self):\n    return\n   x = 2\n",
     "print 'hello'\n", "x = $\n", "def f():\n  yield\n  await g()\n",
